@@ -95,6 +95,11 @@ def unitExpr (env : ι → UnitInfo V) (u : ι) (e : Frac) : String :=
 
 /-- `BaseUnits(dict)` : entries with numerator 0 are deleted. -/
 def BU.new (d : BU ι) : BU ι := d.filter (fun p => p.2.num != 0)
+/-- `BaseUnits(list)` : a dimension list becomes `Dimensions.from_list(list).value(dtype=dict)`, i.e.
+    the base symbols `names = DIMENSION_LIST` in *that* order, entries with numerator 0 left out. -/
+def BU.ofDimList (names : List ι) (d : Dims) : BU ι :=
+  (names.zip d).filter (fun p => p.2.num != 0)
+
 /-- `.magnitude` : `1`, then `*= ubase.magnitude` in dict order -/
 def BU.magnitude (env : ι → UnitInfo V) (b : BU ι) : V :=
   b.foldl (fun acc p => acc * unitFactor env p.1 p.2) 1
